@@ -1,8 +1,10 @@
 (* Driver entry for C18: the commit-bookkeeping model (Model/Commit.v) behind the wire
-   format of Model/CommitDriver.v (cases 0 = timed micro-step trace, 1 = script of an API
-   call, 2 = peewee autocommit run).  Compiled from build/C18 so that model.ml lands there. *)
-From AwVerif Require Import Base.Prelude Base.Sexp Model.Commit Model.CommitDriver.
+   format of Model/CommitDriver.v (cases 0 = timed micro-step trace, 1 = script of a storage
+   call) plus case 5 = script of a call through Datastore / Bucket (Model/CommitApi.v,
+   Model/CommitApiDriver.v).  Compiled from build/C18 so that model.ml lands there. *)
+From AwVerif Require Import Base.Prelude Base.Sexp Model.Commit Model.CommitDriver Model.CommitApi
+  Model.CommitApiDriver.
 Require Extraction.
 Require Import ExtrOcamlBasic.
 
-Extraction "model.ml" driver_entry.
+Extraction "model.ml" CommitApiDriver.driver_entry.
